@@ -78,6 +78,9 @@ def candidates(g, rng, n_sub=3):
             out.append(("y-real" if P2[1][1] == 0 else "y-imag", P2))
             out.append(("y-real" if P2[1][1] == 0 else "y-imag", c.neg(P2)))
             found += 1
+    # on-curve points whose y (G2: y.c1, or y.c0 when y.c1 = 0) is adjacent to the threshold (q-1)/2 of the sort order
+    for P in G.y_threshold_points(g, rng, 4 * n_sub):
+        out.append(("y~(q-1)/2", P))
     # an order-r point of an isomorphic twist: (l^2 x, l^3 y) of a subgroup point (off the curve, but [r] kills it)
     S = subgroup_pt = G.subgroup_point(g, rng)
     lam = f.small(2)
